@@ -224,6 +224,64 @@ theorem hodge_hodge_value (s : String) (k n : Nat) :
     uEval .hodge (XE.hodge (form s k n)) = mul [num ((-1 : Int) ^ (k * (n - k))) 1, form s k n] := by
   simp [uEval, shortcut]
 
+/-! ### constant coefficients: numbers, Constants **and powers of those** (`c*c = c**2`)
+
+  After the `fix:` commit 5022685 a `Pow` whose base and exponent are registry members is a
+  coefficient (`isCoef`), so every theorem above whose hypothesis is `WF` / `isLin` speaks about
+  products with such factors too.  The theorems below make the coefficient laws explicit. -/
+
+/-- what the coefficient notion is: exactly `_is_coeff` of calculus.py -/
+theorem isCoef_pow (b e : XE) : isCoef (other "Pow" [b, e]) = (isReg b && isReg e) := by
+  simp [isCoef, isRegPair]
+
+/-- every operator vanishes on a coefficient — a number, a Constant or a power such as `c**2` -/
+theorem eval_coef_zero (o : U) (a : XE) (h : isCoef a = true) : uEval o a = zero := by
+  rcases isCoef_cases a h with ⟨p, q, rfl⟩ | ⟨s, rfl⟩ | ⟨b, e, rfl, hb, he⟩
+  · cases o <;> simp [uEval, shortcut]
+  · cases o <;> simp [uEval, shortcut]
+  · cases o <;> simp [uEval, shortcut, isCoef, isRegPair, hb, he]
+
+/-- **homogeneity (literal)**: on a product with at least one coefficient and exactly one other
+    factor `v`, the operator goes to `v` and the coefficients (numbers, Constants, powers) stay
+    in front, whatever their number and order -/
+theorem eval_smul (o : U) (as : List XE) (v : XE) (hc : (coefs as).isEmpty = false)
+    (hv : vecs as = [v]) : uEval o (mul as) = sMul (coefs as ++ [uEval o v]) := by
+  rw [uEval, mulBranch, rvs_eq, hv]
+  simp [hc]
+
+/-- the shape of the former finding: `op(c**e * v) = c**e * op(v)` -/
+theorem eval_pow_smul (o : U) (b e v : XE) (hb : isReg b = true) (he : isReg e = true)
+    (hv : isCoef v = false) :
+    uEval o (mul [other "Pow" [b, e], v]) = sMul [other "Pow" [b, e], uEval o v] := by
+  have hp : isCoef (other "Pow" [b, e]) = true := by simp [isCoef_pow, hb, he]
+  have := eval_smul o [other "Pow" [b, e], v] v (by simp [coefs, List.filter, hp])
+    (by simp [vecs, List.filter, hp, hv])
+  simpa [coefs, List.filter, hp, hv] using this
+
+/-- **⋆⋆(c·u) = (-1)^(k(n-k)) c·u** for every coefficient `c` (number, Constant, power) that is
+    not literally 0 or 1 — for `c = c₀**2` this is the witness of the former finding C19-coef-pow -/
+theorem hodge_hodge_cmul (c : XE) (hc : isCoef c = true) (h0 : isZero c = false)
+    (h1 : isOne c = false) (s : String) (k n : Nat) :
+    uEval .hodge (uEval .hodge (mul [c, form s k n]))
+      = sMul [c, num ((-1 : Int) ^ (k * (n - k))) 1, form s k n] := by
+  have hf : isCoef (form s k n) = false := rfl
+  have hh : isCoef (XE.hodge (form s k n)) = false := rfl
+  have e1 : uEval .hodge (mul [c, form s k n]) = mul [c, XE.hodge (form s k n)] := by
+    rw [eval_smul .hodge [c, form s k n] (form s k n) (by simp [coefs, List.filter, hc])
+      (by simp [vecs, List.filter, hc, hf])]
+    have : coefs [c, form s k n] = [c] := by simp [coefs, List.filter, hc, hf]
+    rw [this]
+    simpa [uEval, shortcut, U.node] using
+      sMul_coef_pair c (XE.hodge (form s k n)) hc h0 h1 (by intro ys h; cases h)
+        (by simp [isZero]) (by simp [isOne])
+  rw [e1, eval_smul .hodge [c, XE.hodge (form s k n)] (XE.hodge (form s k n))
+    (by simp [coefs, List.filter, hc]) (by simp [vecs, List.filter, hc, hh])]
+  have : coefs [c, XE.hodge (form s k n)] = [c] := by simp [coefs, List.filter, hc, hh]
+  rw [this]
+  unfold sMul
+  simp only [List.cons_append, List.nil_append, flatMulArgs_coef_cons c _ hc]
+  simp [uEval, shortcut, flatMulArgs]
+
 /-! ### degree arithmetic (`infere_type`) -/
 
 /-- the registry knows exactly the degrees 0..6 and returns the degree itself -/
@@ -252,6 +310,18 @@ theorem infer_hodge (a : XE) (k n : Nat) (ns : List Nat) (h : infer a = .ok (som
 theorem infer_wedge (a b : XE) (k l : Nat) (ha : infer a = .ok (some k))
     (hb : infer b = .ok (some l)) : infer (wedge a b) = getIndexForm (k + l) := by
   simp [infer, ha, hb, bind, Except.bind]
+
+/-- **a constant multiple keeps the degree**: a product with exactly one non-coefficient factor
+    `v` — the other factors being numbers, Constants or powers of those (`c**2 * v`) — has the
+    inferred degree of `v`, and is refused exactly when `v` is (inference.py Mul branch) -/
+theorem infer_cmul (as : List XE) (v : XE) (hv : vecs as = [v]) : infer (mul as) = infer v := by
+  have hcnt : countVecs as = 1 := by rw [countVecs_eq, hv]; rfl
+  obtain ⟨h1, h2⟩ := inferList_one_vec as v hv
+  cases hi : infer v with
+  | error e => simp [infer, hcnt, h1 e hi, bind, Except.bind]
+  | ok t =>
+    obtain ⟨ts, hts, hf⟩ := h2 t hi
+    simp [infer, hcnt, hts, hf, bind, Except.bind]
 
 theorem dedupOpt_mem (ts : List (Option Nat)) (t : Option Nat) :
     t ∈ dedupOpt ts ↔ t ∈ ts := by
@@ -330,5 +400,21 @@ example : isLin (isFormP (fun _ _ => true))
 example : uEval .hodge (uEval .hodge (add [mul [num 2 1, form "u" 1 2], form "w" 2 3]))
     = add [mul [num 2 1, num (-1) 1, form "u" 1 2], mul [num 1 1, form "w" 2 3]] := by rfl
 example : infer (add [XE.d (form "u" 1 3), form "w" 1 3]) = .error .valueError := by rfl
+-- powers of constants are coefficients: the witness of the former finding C19-coef-pow and friends
+example : isCoef (other "Pow" [cst "c", num 2 1]) = true := by decide
+example : isCoef (other "Pow" [other "Symbol" [], num 2 1]) = false := by decide
+example : WF (mul [other "Pow" [cst "c", num 2 1], form "u1_3" 1 3]) = true := by decide
+example : uEval .hodge (uEval .hodge (mul [other "Pow" [cst "c", num 2 1], form "u1_3" 1 3]))
+    = mul [other "Pow" [cst "c", num 2 1], form "u1_3" 1 3] := by rfl
+example : uEval .d (mul [num 4 1, other "Pow" [cst "c", num 2 1], other "Pow" [cst "e", num 3 1],
+      add [form "u" 1 3, form "w" 1 3]])
+    = mul [num 4 1, other "Pow" [cst "c", num 2 1], other "Pow" [cst "e", num 3 1],
+        add [XE.d (form "u" 1 3), XE.d (form "w" 1 3)]] := by rfl
+example : isZero (uEval .d (uEval .d (mul [other "Pow" [cst "c", num 2 1], form "u" 1 3]))) = true := by
+  decide
+example : isLin (isFormP (fun k n => k == n))
+    (mul [other "Pow" [cst "c", cst "e"], form "t" 3 3]) = true := by decide
+example : infer (add [mul [other "Pow" [cst "c", num 2 1], XE.d (form "u" 1 3)],
+    mul [other "Pow" [cst "c", num 2 1], form "u" 1 3]]) = .error .valueError := by rfl
 
 end Sympde.Ext
